@@ -92,10 +92,15 @@ static void gs_lengths(const struct gblock *b, uint8_t *ll, int *hlit, uint8_t *
 		for (int i = 0; i < nl; i++) ll[usedl[i]] = (uint8_t)(15 - i % 3);
 		gs_complete(ll, fill_l, nfl);
 	}
-	if (nl == 1)
+	if (b->ll_shape == 3) { /* every one of the 286 symbols has a code: 226 of 8 bits, 60 of 9 bits (complete); no two neighbours alike in the first 120 */
+		for (int s = 0; s < 286; s++) ll[s] = (uint8_t)(s < 120 && (s & 1) ? 9 : 8);
+	}
+	if (nl == 1 && b->ll_shape != 3)
 		*complete = 0;
 	/* dist */
-	if (nd == 0) {
+	if (b->d_shape == 4) { /* all 30 distance symbols: two of 4 bits, 28 of 5 bits (complete) */
+		for (int s = 0; s < 30; s++) dl[s] = (uint8_t)(s >= 28 ? 4 : 5);
+	} else if (nd == 0) {
 		/* zero distance codes */
 	} else if (b->d_shape == 0 || b->d_shape == 3) {
 		shape_balanced(usedd, nd, dl);
@@ -329,6 +334,25 @@ static void gs_family_shapes(int (*mine)(uint64_t), uint64_t *idx, gs_cb cb, voi
 						if (gs_build(b, 1, desc) == 0)
 							cb(&GS, ctx);
 					}
+	/* longest headers: style 3 on the shapes above, and the full 286+30 alphabet (ll_shape 3, d_shape 4) in every style - with style 3 the header is about
+	 * 286 bytes, longer than the 7-bit-per-lit/len-symbol estimate of 260 and than any power-of-two staging size below 512 */
+	for (int tl = 0; tl < 5; tl++)
+		for (int v = 0; v < 7; v++) {
+			uint64_t id = (*idx)++;
+			if (!mine(id))
+				continue;
+			struct gblock b[2];
+			memset(b, 0, sizeof b);
+			b[0].kind = 2;
+			if (v < 4) { b[0].ll_shape = 3; b[0].d_shape = 4; b[0].style = v; }
+			else { b[0].ll_shape = v - 4; b[0].d_shape = 0; b[0].style = 3; b[0].hlit_max = b[0].hdist_max = 1; }
+			b[0].nt = TN[tl];
+			for (int i = 0; i < TN[tl]; i++) b[0].t[i] = TL[tl][i];
+			char desc[200];
+			snprintf(desc, sizeof desc, "F3 dyn long-header tokens=T%d ll_shape=%d d_shape=%d style=%d", tl, b[0].ll_shape, b[0].d_shape, b[0].style);
+			if (gs_build(b, 1, desc) == 0)
+				cb(&GS, ctx);
+		}
 	/* stored block sizes 0, 1, 65535 in sequences */
 	for (int a = 0; a < 3; a++)
 		for (int bb = 0; bb < 3; bb++) {
